@@ -98,7 +98,13 @@ func (g *G) ipv6() *protocol.IPv6 {
 				if l > room-2 {
 					l = room - 2
 				}
-				h.Options = append(h.Options, &protocol.Option{Type: uint8(1 + g.r.Intn(200)), Length: uint8(l), Data: g.r.Bytes(l)})
+				// option types incl. 0 (Pad1 on the wire, but an ordinary type-length-data option to this
+				// library) and 1 (PadN)
+				ty := g.r.Intn(222)
+				if ty > 200 {
+					ty = 0
+				}
+				h.Options = append(h.Options, &protocol.Option{Type: uint8(ty), Length: uint8(l), Data: g.r.Bytes(l)})
 				room -= 2 + l
 			}
 			ip.HbhHeader = h
